@@ -44,6 +44,21 @@ def wfB (C : Cfg) : Bool :=
   C.disconLine.all (fun l => decide (l < C.lines.length)) &&
   (List.range C.nets.length).all (wfNet C)
 
+/-- additional structure of real configurations used for the second invariant of C05 (switch positions agree with lines):
+the disconnector list of a line is complete; a line carries exactly the breaker that sits on it; every disconnector on a
+line of a section is among the section's switches; a section that lists one disconnector of a line lists all of them -/
+def wfB2 (C : Cfg) : Bool :=
+  (List.range C.disconLine.length).all (fun d => (lineOf C (C.disconLine.getD d 0)).discons.contains d) &&
+  (List.range C.cbLine.length).all (fun c => decide (C.cbLine.getD c 0 < C.lines.length) && (lineOf C (C.cbLine.getD c 0)).cb == some c) &&
+  (List.range C.lines.length).all (fun l =>
+    (match (lineOf C l).cb with | some c => decide (c < C.cbLine.length) && C.cbLine.getD c 0 == l | none => true) &&
+    (lineOf C l).discons.all (fun d => (secOf C (lineOf C l).sec).switches.contains (.discon d))) &&
+  (List.range C.secs.length).all (fun k =>
+    (secOf C k).switches.all (fun sw =>
+      match sw with
+      | .discon d => (lineOf C (C.disconLine.getD d 0)).discons.all (fun d' => (secOf C k).switches.contains (.discon d'))
+      | .breaker _ => true))
+
 /-- all state vectors have the length the configuration prescribes -/
 def sizeOK (C : Cfg) (s : St) : Bool :=
   s.failed.length == C.lines.length && s.conn.length == C.lines.length && s.rem.length == C.lines.length &&
